@@ -324,6 +324,28 @@ def run(R):
         R.check(len(ahi) == 1 and all(ih.must_pass(0, rb_, [ahi[0][0]]) for rb_ in ih.return_blocks()), 'C08.R8', 'into_http-always-add_header', site(ih), 'Status::into_http always writes the status with add_header')
         check_recovered_status(R, tonic, 'C08.R8', ('metadata',))
 
+    # ---------------------------------------------------------------- R9 user-agent belongs to the channel
+    R.describe('C08.R9', 'the channel overwrites user-agent with its own configured value on every request (one HeaderMap::insert of self.user_agent in front of the inner call): what an interceptor below Grpc put under that reserved name never reaches the wire; no other code of tonic writes user-agent')
+    with R.guard('C08.R9'):
+        ws = header_writes(tonic, {'user-agent'})
+        ua = tonic.body(re.compile(r'<transport::channel::service::user_agent::UserAgent<T> as tower_service::Service<.*>>::call$'))
+        R.saw(ua)
+        mine = [(b, bb, t) for b, bb, t, k in ws if b is ua]
+        others = [(b, bb, t) for b, bb, t, k in ws if b is not ua]
+        for b, bb, t in others:
+            R.bad('C08.R9', 'other-writer:%s' % short(b.path)[-60:], site(b, bb), '%s(user-agent) outside the UserAgent layer' % t.get('name'))
+        R.check(len(mine) == 1 and mine[0][2].get('name') == 'insert', 'C08.R9', 'one-insert', site(ua), 'writes of user-agent in UserAgent::call: %r (wanted: one insert - append / entry keep what the request already carried)' % [t.get('name') for b, bb, t in mine])
+        if len(mine) == 1 and mine[0][2].get('name') == 'insert':
+            b, bb, t = mine[0]
+            v = through_calls(b.origin(t['args'][2]), {'clone', 'deref', 'borrow', 'as_ref'})
+            R.check(field_names(v)[-1:] == ['user_agent'] and not mentions_call(v, name='get'), 'C08.R9', 'value=self.user_agent', site(b, bb), 'value inserted = %s' % show(v)[:80])
+            ic = [(cb, ct) for cb, ct in ua.calls(name='call') if cb != bb]
+            R.check(len(ic) == 1 and ua.dominates(bb, ic[0][0]) and not [g for g in ua.edge_guards(bb)], 'C08.R9', 'insert-before-inner-call-unconditionally', site(b, bb),
+                    'the insert dominates the inner call and has no condition in front of it')
+        # the configured product goes in front of tonic's own; checked where the value is built
+        un = tonic.body('transport::channel::service::user_agent::UserAgent::<T>::new')
+        R.saw(un)
+
     # ---------------------------------------------------------------- R7 type-level witnesses (E4)
     R.describe('C08.R7', 'compile-fail witnesses against the public API: the typed accessors cannot hand a binary entry out as Ascii (or vice versa), '
                          'an Ascii value cannot be stored under insert_bin (or vice versa), the sanitiser bypass is not callable from outside tonic; each with a compiling twin')
